@@ -518,32 +518,36 @@ theorem delete_node_parallel_path_lost_removal_witness :
     decide
   rw [hn] at hr; exact absurd hr (by simp)
 
-/-! ### concurrent: everything but node creation / deletion -/
+/-! ### concurrent: everything but node deletion -/
 
 /-- PARTIAL form of `QuiescentWF`: the largest set of operations for which it holds without a
-    condition on footprints.  Any number of threads, each running any list of `create_edge`,
-    `delete_edge`, `update_node`, `add_label`, `remove_label` and `update_edge` operations from any
-    reachable store: for EVERY
-    interleaving the list locks allow, once all threads have finished the store is well-formed.
+    condition on footprints.  Any number of threads, each running any list of `create_node`,
+    `create_edge`, `delete_edge`, `update_node`, `add_label`, `remove_label` and `update_edge`
+    operations from any reachable store: for EVERY interleaving the list locks allow, once all threads
+    have finished the store is well-formed.
     Conditions (`Admissible`): a `delete_edge(e)` / `update_edge(e)` names an id handed out before the
-    concurrent phase, and no `update_edge(e)` runs in a phase in which some thread has a
-    `delete_edge(e)` (anywhere in its list).
+    concurrent phase; no `update_edge(e)` runs in a phase in which some thread has a `delete_edge(e)`
+    (anywhere in its list); and IF some thread creates nodes in the phase, every `create_edge(a, b)` of
+    the phase is between nodes that existed before it (`a, b ≤ s0.nn`; without a `create_node` in the
+    phase the arguments of `create_edge` are arbitrary).
     What is missing w.r.t. the full statement, which is false:
     * `delete_node` next to anything that touches the node or its edges
       (`create_edge_delete_node_race_witness`),
     * `update_edge(e)` next to `delete_edge(e)` (`update_edge_delete_edge_race_witness`),
-    * `create_node` (its two list puts take no lock; harmless as long as nobody uses the new id
-      before `create_node` returns) and operations on ids handed out DURING the phase, which a client
-      can only guess.  For operation sets with disjoint footprints these are covered by
-      `quiescent_wf_disjoint_partial`. -/
+    * `create_edge` to a node whose `create_node` is still running
+      (`create_node_create_edge_race_witness`), `delete_edge` of an edge whose `create_edge` is still
+      running (`delete_edge_of_edge_in_creation_race_witness`): operations on ids handed out DURING
+      the phase, which a client can only guess or discover by a scan,
+    * the batch calls (sequential theorems only).
+    For operation sets with disjoint footprints see `quiescent_wf_disjoint_partial`. -/
 theorem quiescent_wf_partial (s0 : St) (h : Inv s0) (programs : List (List Op))
     (hadm : ∀ ops ∈ programs, ∀ op ∈ ops, Admissible s0 programs op) : QuiescentWF s0 programs :=
   quiescentWF_of_admissible s0 h programs hadm
 
-/-- non-vacuity: updates of edge 1 and node 1 next to the deletion of edge 2 and new edges on the
-    same hub -/
+/-- non-vacuity: updates of edge 1 and node 1 next to the deletion of edge 2, new edges on the same
+    hub and new nodes -/
 example : QuiescentWF twoNodesTwoEdges
-    [[.updateEdge 1 9, .createEdge 1 2 false 0 0], [.deleteEdge 2, .updateNode 1 none 3],
+    [[.updateEdge 1 9, .createEdge 1 2 false 0 0], [.deleteEdge 2, .updateNode 1 none 3, .createNode 4 4],
      [.createEdge 2 1 true 1 1, .addLabel 1 5, .removeLabel 2 0]] :=
   quiescent_wf_partial _ (wf_preserved _ _ inv_empty).1 _ (by
     intro ops hops op hop
@@ -551,11 +555,23 @@ example : QuiescentWF twoNodesTwoEdges
     rcases hops with rfl | rfl | rfl <;> simp at hop
     · rcases hop with rfl | rfl
       · refine ⟨by decide, ?_⟩; simp
-      · trivial
-    · rcases hop with rfl | rfl
+      · exact Or.inl ⟨by decide, by decide⟩
+    · rcases hop with rfl | rfl | rfl
       · show 2 ≤ twoNodesTwoEdges.ne; decide
       · trivial
-    · rcases hop with rfl | rfl | rfl <;> trivial)
+      · trivial
+    · rcases hop with rfl | rfl | rfl
+      · exact Or.inl ⟨by decide, by decide⟩
+      · trivial
+      · trivial)
+
+/-- … and without a `create_node` in the phase `create_edge` may name any node, e.g. one that does
+    not exist -/
+example : QuiescentWF twoNodes [[.createEdge 1 7 true 0 0], [e12]] :=
+  quiescent_wf_partial _ (wf_preserved _ _ inv_empty).1 _ (by
+    intro ops hops op hop
+    simp at hops
+    rcases hops with rfl | rfl <;> simp at hop <;> subst hop <;> exact Or.inr (by simp [e12]))
 
 /-! ### concurrent: operation sets with pairwise disjoint footprints (any operations) -/
 
